@@ -102,7 +102,8 @@ static void bounds(size_t n, size_t P, size_t npc, const ld *ev, double tol, dou
 static void run_case(vh_ctx *c)
 {
   size_t nb = (size_t)vh_int(c, 2, 4), n = (size_t)vh_int(c, 5, 30), w[4], off[5], P = 0, minw = 99, b, i, j, k, kmax, npc, nmean, nscale;
-  int scaling = (int)vh_int(c, 0, 5), modeB = vh_coin(c, 0.4), attempt, bad_domain = 0, nconst = 0;
+  int scaling = (int)vh_int(c, 0, 5), modeB = vh_coin(c, 0.4), attempt, bad_domain = 0, nconst = 0, smallunit, smallcol[4][8], nsmall = 0, bad_small = 0, between_guards = 0;
+  double sutarget[4][8]; ld zsd[4][8];
   double mag = vh_logunif(c, -1.0, 2.5);
   ldm *Z[4], *B[4] = { 0 }, *T[4] = { 0 }, *E[4], *C, *A, *EV, *Uo;
   ld *mean[4], *scale[4], colloc[4][8], colunit[4][8], *ev, *sv, trace, e0sq[4], cfro, rs[4], rsC;
@@ -163,6 +164,14 @@ static void run_case(vh_ctx *c)
     ldm_free(F);
   }
   /* offsets, per-column units (mode A only: they would destroy the prescribed spectrum of mode B under scaling 0), constant columns */
+  smallunit = !modeB && scaling >= 1 && vh_coin(c, 0.25);
+  for (b = 0; b < nb; b++) for (j = 0; j < w[b]; j++) {
+    ld m1 = 0, v1 = 0;
+    for (i = 0; i < n; i++) m1 += LM(Z[b], i, j);
+    m1 /= (ld)n;
+    for (i = 0; i < n; i++) v1 += (LM(Z[b], i, j) - m1) * (LM(Z[b], i, j) - m1);
+    zsd[b][j] = sqrtl(v1 / (ld)(n - 1)); if (!(zsd[b][j] > 0)) zsd[b][j] = 1;
+  }
   for (b = 0; b < nb; b++) {
     size_t nc = 0;
     for (j = 0; j < w[b]; j++) {
@@ -171,19 +180,25 @@ static void run_case(vh_ctx *c)
       colunit[b][j] = modeB ? 1.0 : vh_logunif(c, -0.5, 1.0);
       isconst[b][j] = !modeB && w[b] >= 2 && nc + 1 < w[b] && vh_coin(c, 0.06);
       if (isconst[b][j]) { nc++; nconst++; }
+      /* small-unit variables (second build session): C09's quantifier does not bound the units of a variable, and a stored scaling
+         value between the library's fit-side (1e-3) and apply-side (1e-2) zero guards is exactly where a predictor that preprocesses
+         differently from the fit goes wrong.  Such a column gets a standard deviation (and, for level scaling, a mean) in
+         [2.5e-3, 6e-3], independent of the magnitude retry loop. */
+      smallcol[b][j] = smallunit && !isconst[b][j] && vh_coin(c, 0.4);
+      if (smallcol[b][j]) { nsmall++; sutarget[b][j] = vh_range(c, 2.5e-3, 6e-3); colloc[b][j] = (scaling == 5 || vh_coin(c, 0.5)) ? sign * vh_range(c, 2.5e-3, 6e-3) : 0.0; }
     }
     mean[b] = calloc(w[b] + 1, sizeof(ld)); scale[b] = calloc(w[b] + 1, sizeof(ld));
   }
   /* domain of the preprocessing step: every stored scaling value is exactly 0 (constant column) or >= 0.06 */
   for (attempt = 0; attempt < 10; attempt++, mag *= 4.0) {
     if (x) DelTensor(&x);
-    bad_domain = 0;
+    bad_domain = 0; bad_small = 0; between_guards = 0;
     for (b = 0; b < nb; b++) {
       if (B[b]) ldm_free(B[b]);
       if (T[b]) ldm_free(T[b]);
       B[b] = ldm_new(n, w[b]); T[b] = ldm_new(n, w[b]);
       for (i = 0; i < n; i++) for (j = 0; j < w[b]; j++)
-        LM(B[b], i, j) = colloc[b][j] + (isconst[b][j] ? 0 : (ld)mag * colunit[b][j] * LM(Z[b], i, j));
+        LM(B[b], i, j) = colloc[b][j] + (isconst[b][j] ? 0 : smallcol[b][j] ? (ld)sutarget[b][j] / zsd[b][j] * LM(Z[b], i, j) : (ld)mag * colunit[b][j] * LM(Z[b], i, j));
     }
     x = tensor_of_blocks(B, nb);
     for (b = 0; b < nb; b++) {
@@ -192,6 +207,13 @@ static void run_case(vh_ctx *c)
       for (j = 0; j < w[b]; j++) {
         ld sd; or_col_stats(B[b], j, NULL, &sd, NULL, NULL, NULL, NULL);
         if (isconst[b][j]) continue;
+        if (smallcol[b][j]) {
+          /* inside [2e-3, 8.5e-3] (between the guards, clear of both) or >= 0.012 (Pareto, range): never in [8.5e-3, 0.012) or below 2e-3 */
+          ld v = scaling >= 1 ? fabsl(scale[b][j]) : sd;
+          if (!(sd >= 2e-3L) || !((v >= 2e-3L && v <= 8.5e-3L) || v >= 0.012L)) bad_small = 1;
+          if (scaling >= 1 && v <= 8.5e-3L) between_guards++;
+          continue;
+        }
         if (sd < 0.06L) bad_domain = 1;
         if (scaling >= 1 && fabsl(scale[b][j]) < 0.06L) bad_domain = 1;
       }
@@ -237,8 +259,10 @@ static void run_case(vh_ctx *c)
   }
   vh_desc(c, "objects=%zu blocks=%zu widths=", n, nb);
   for (b = 0; b < nb; b++) vh_desc(c, "%zu%s", w[b], b + 1 < nb ? "," : "");
-  vh_desc(c, " scaling=%d mode=%s mag=%.6g const_cols=%d oracle_kmax=%zu x000=%.17g", scaling, modeB ? "prescribed-spectrum" : "latent-factors", mag, nconst, kmax, x->m[0]->data[0][0]);
+  vh_desc(c, " scaling=%d mode=%s mag=%.6g const_cols=%d small_unit_cols=%d oracle_kmax=%zu x000=%.17g", scaling, modeB ? "prescribed-spectrum" : "latent-factors", mag, nconst, nsmall, kmax, x->m[0]->data[0][0]);
   if (bad_domain) { vh_skip(c, "column spread or scaling value in (0,0.06)"); goto out0; }
+  if (bad_small) { vh_skip(c, "small-unit column outside its window"); goto out0; }
+  if (nsmall) { vh_obs("cases_with_small_unit_columns", 1); vh_obs("stored_scalings_between_the_zero_guards", between_guards); }
   if (kmax == 0) { vh_skip(c, "leading singular values of the concatenation not separated (ratio > 0.9)"); goto out0; }
   npc = kmax < minw ? kmax : minw;
   if (npc > 1 && vh_coin(c, 0.3)) npc = (size_t)vh_int(c, 1, (long)npc);
